@@ -18,6 +18,7 @@ import GrcVerif.MainSM
 import GrcVerif.Version
 import GrcVerif.FeatModel
 import GrcVerif.Cmap
+import GrcVerif.CmapSearch
 import GrcVerif.LineMap
 import GrcVerif.StaticRules
 import GrcVerif.Octabox
@@ -572,6 +573,11 @@ def cmdC17 (st : State) : Except String (State × List String) := do
     | some e => match tableBytes ib e with | some t => pure t | none => throw s!"input table {tag} out of bounds"
     | none => throw s!"input font lacks table {tag}"
   let cm ← P.run Cm.parseCmap (← tbl "cmap")
+  -- hypotheses of Cm.lookup31_eq_lookup (end codes ascending and within 16 bits) evaluated on this font; the lookups
+  -- the compiler makes through GrcFont::GlyphFromCmap are run with the transcription of its own search (Cm.lookupC)
+  let cmHyp : Bool := match cm with
+    | .fmt4 segs => Cm.endsSorted segs && segs.all (fun sg => sg.endC ≤ 0xFFFF)
+    | .fmt12 _ => true
   let maxp ← tbl "maxp"
   let numGlyphs := beU16 maxp 4
   let mapped := Cm.mappedCodepoints cm
@@ -595,7 +601,7 @@ def cmdC17 (st : State) : Except String (State × List String) := do
   let resolveU := fun (c : Nat) =>
     match A.pseudos.find? (·.1 == c) with
     | some (_, g) => g
-    | none => Cm.lookup cm c
+    | none => Cm.lookupC cm c
   let mut classes : Array (List Nat) := #[]
   let mut missing : List String := []
   for rl in refs do
@@ -639,9 +645,9 @@ def cmdC17 (st : State) : Except String (State × List String) := do
     -- the real glyph: for an automatic pseudo-glyph what the cmap gives for its own code point; for an explicit one
     -- what its definition names - through the cmap, never through another pseudo-glyph
     let want : Nat := match explicit.find? (·.1 == c) with
-      | some (_, some cp, _) => Cm.lookup cm cp
+      | some (_, some cp, _) => Cm.lookupC cm cp
       | some (_, none, some gid) => gid
-      | _ => Cm.lookup cm c
+      | _ => Cm.lookupC cm c
     if got != Int.ofNat want then out := out ++ [s!"FAIL pseudo glyph {g} (U+{c}) records actual glyph {got}, its definition / the cmap gives {want}"]
   if !explicit.isEmpty then
     let ids := A.pseudos.map (·.2)
@@ -654,7 +660,7 @@ def cmdC17 (st : State) : Except String (State × List String) := do
         -- attribute 0 is shared with nothing else; a non-pseudo glyph must not carry an actual-glyph value
         out := out ++ [s!"FAIL non-pseudo glyph {g} carries actualForPseudo = {got}"]
   if out.isEmpty then
-    return (st', [s!"ok realGlyphs={n} pseudos={A.pseudos.length} lb={A.lb} phantom={A.phantom} missing={missing.length} classes={classes.size}", "done"])
+    return (st', [s!"ok realGlyphs={n} pseudos={A.pseudos.length} lb={A.lb} phantom={A.phantom} missing={missing.length} classes={classes.size} cmapEndCodesAscending={cmHyp}", "done"])
   return (st', out ++ ["done"])
 
 /-- Renumber the slot references of an expression for the alternative that keeps `kept` (none: refers to an omitted item). -/
